@@ -216,6 +216,10 @@ def skip_first_whitespace(box, skip_stack):
             result = skip_first_whitespace(box.children[index], None)
         return {index: result} if (index or result) else None
 
+    if isinstance(box, boxes.InlineFlexBox):
+        # Inline flex containers are split by the forced breaks they contain.
+        return skip_stack
+
     assert skip_stack is None, f'unexpected skip inside {box}'
     return None
 
@@ -509,7 +513,7 @@ def split_inline_level(context, box, position_x, max_x, bottom_space,
             if getattr(box, f'margin_{side}') == 'auto':
                 setattr(box, f'margin_{side}', 0)
         new_box, resume_at, _, _, _ = flex_layout(
-            context, box, -inf, skip_stack, containing_block, False,
+            context, box, -inf, skip_stack, containing_block, True,
             absolute_boxes, fixed_boxes, False)
         preserved_line_break = False
         first_letter = '\u2e80'
